@@ -342,6 +342,7 @@ type Result struct {
 	RetSame   bool            `json:"retsame"`
 	HasGetter bool            `json:"hasgetter"`
 	VarErr    string          `json:"varerr"`
+	InputType string          `json:"inputtype"`
 }
 
 // Run executes the tasks in the runner process (restarting it if it dies: a crash of the
